@@ -2,7 +2,7 @@
 from .. import core, gen, build
 
 RULE = ("surfaces of every size 0..6 x 0..6 (exhaustively) and random sizes up to 40, pixel values random premultiplied, "
-        "boundary (0, ff, alpha 1, alpha 254) and arbitrary non-premultiplied words, from_vec given fewer / exactly / more "
+        "boundary (0, ff, alpha 1, alpha 254) and arbitrary non-premultiplied words, wholly opaque / wholly transparent / single-colour surfaces, from_vec given fewer / exactly / more "
         "than w*h words: the word view (get_data, into_vec, from_backing, into_inner), the byte view (get_data_u8), one write "
         "through each mutable view read back through the other, the decoded write_png output (png crate) and "
         "SolidSource::to_u32 / from_unpremultiplied_argb / From<Color> are compared with the model; the statement is "
@@ -23,6 +23,14 @@ def make_line(rng, cid, w, h):
             return rng.choice([0, 0xffffffff, 0x01010101, 0xfefefefe, 0x64646464, 0x07070707, 0xff000000, 0x80808080])
         return rng.getrandbits(32)
     pix = [px() for _ in range(nn)]
+    u = rng.random()
+    if u < 0.15:        # uniform surfaces: every pixel opaque / every pixel transparent / one colour
+        pix = [0xff000000 | rng.getrandbits(24) for _ in range(nn)]
+    elif u < 0.2:
+        pix = [rng.getrandbits(24) if rng.random() < 0.5 else 0 for _ in range(nn)]
+    elif u < 0.25:
+        one = px()
+        pix = [one] * nn
     return "fmt %d %d %d %d %s %d %d %d %d %d %d" % (cid, w, h, nn, " ".join(map(gen.hexpx, pix)), rng.randrange(0, 100000),
                                                    rng.randrange(256), rng.choice([0, 255, rng.randrange(256)]),
                                                    rng.randrange(256), rng.randrange(256), rng.randrange(256))
